@@ -44,8 +44,10 @@ def enumerate_cases(d: Path):
 def observe(d: Path):
     res, cases = enumerate_cases(d)
     cases = [c for c in cases if spell(c["m"])]
-    for ovr in ("none", "json", "octet"):
-        mine = [c for c in cases if c["m"]["ovr"] == ovr]
+    # one document (and one configuration) per (override target, where the capital is): the overrides of a configuration are keyed by exactly the
+    # strings of its own group, so a capitalised key has no lower-case twin next to it
+    for ovr, cap in [(o, k) for o in ("none", "json", "octet") for k in ("none", "type", "param")]:
+        mine = [c for c in cases if c["m"]["ovr"] == ovr and c["m"]["cap"] == cap]
         # two media types that are written identically (the capital lands on the same letter) are one document key
         paths, overrides = {}, {}
         for n, c in enumerate(mine):
